@@ -136,6 +136,13 @@ func (r *Run) CheckRun(sc *Script, safety bool) *Failure {
 				i, op.Node, num, r.Sim.Cfg.L, r.Sim.Cfg.F)}
 		}
 		if prev, ok := lastFin[op.Node]; ok && prev != o.Finalized && !r.Sim.Ancestor(prev, o.Finalized) && (safety || op.Kind != "propose") {
+			// an own proposal (proposeAndCommit has no Accepts test) on a best block off the finalized branch is the known
+			// single-node consequence of F4 (F17); every other non-monotone move of finalized - by an import, or by a proposal
+			// whose parent does descend from finalized - keeps the plain class
+			if op.Kind == "propose" && !r.Sim.Ancestor(prev, o.Best) {
+				return &Failure{F17Class, fmt.Sprintf("op %d: node %d's own proposal (on a best block that does not descend from its finalized #%d) moved finalized to #%d",
+					i, op.Node, block.Number(prev), block.Number(o.Finalized))}
+			}
 			return &Failure{"finalized-not-monotone", fmt.Sprintf("op %d: node %d finalized moved from #%d to #%d which does not descend from it",
 				i, op.Node, block.Number(prev), block.Number(o.Finalized))}
 		}
